@@ -137,7 +137,12 @@ func parentDriver(g *modelRig, rng *vk.Rand, steps int) {
 			g.verify("AddChildTrait")
 		case 3:
 			g.op(s, "RemoveChildTrait")
-			c := m.RemoveChildTrait(kid, traitNames[rng.Intn(len(traitNames))])
+			// one to three names in one call, in any order (the child's last trait may be named before an earlier one)
+			var ts []trait.Name
+			for i, k := 0, rng.Range(1, 3); i < k; i++ {
+				ts = append(ts, traitNames[rng.Intn(len(traitNames))])
+			}
+			c := m.RemoveChildTrait(kid, ts...)
 			if c != nil {
 				g.observe("result:RemoveChildTrait", c)
 			}
